@@ -67,6 +67,7 @@ fn main() {
     let ctx = Ctx { prop: prop.clone(), tier, seed, replay, verif_dir, workers, started: Instant::now(), scale };
     install_panic_hook();
     let findings = Findings::load(&ctx.verif_dir);
+    set_known_signatures(&findings, &ctx.prop);
     let report = match props::dispatch(&ctx, &findings) {
         Some(r) => r,
         None => {
